@@ -455,7 +455,7 @@ class C10(Prop):
     MODEL_TARGETS = ["theories/Model/Wire.vo", "theories/Model/WireSchemas.vo", "theories/Model/WireCase.vo"]
     CASE_HEADER = "From Boreal Require Import Base.Prelude Model.Wire Model.WireSchemas Model.WireCase."
     HARNESS_BINS = ("c10",)
-    KF = {}
+    KF = {1: "C10-nan-external-not-saveable"}
     RULE = ("generated rule sets (1-4 rules, two namespaces, global/private flags, tags, metadata of the three kinds, external "
             "symbols of the four types, rule references and rule sets, module calls over hash/math/string/time/pe/elf/macho/"
             "dotnet, nested for-loops with bound identifiers and module iterators) whose strings cover text strings under "
@@ -561,6 +561,12 @@ class C10(Prop):
     def term(self, ctx, case, out):
         if not isinstance(out, dict):
             return (False, False, 0)
+        if case.get("nan_symbols"):
+            # open finding: a NaN external symbol makes to_bytes fail; the model's encode refuses NaN too
+            refused = "to_bytes_error" in out and "NaN" in str(out.get("to_bytes_error"))
+            if "compile_error" in out or not ("to_bytes_error" in out or "file" in out):
+                return (False, False, 0)
+            return "C10_unsaveable 9221120237041090560 %s" % gbool(refused)
         if "compile_error" in out:
             if case.get("expect") == "compiles":
                 return (False, False, 0)
